@@ -9,7 +9,8 @@ import re
 EXTRA_COQ_FILES = ('GenFacts/ConstantsOK.v',)
 RULE = ('seeded random programs: object / header names matching [A-Z0-9_-]+ or not, signed-integer channels, channels in 0/1/2 frames, '
         'units / equipment type / location inside or outside their enumerations, file-set numbers given or defaulted, with the context '
-        'entered and left at random points (nested). Plus: exception inside the context, decorator form, nested contexts on the real API. '
+        'entered and left at random points (nested), later assignments of units / equipment type / location / index type made in the mode current at that time '
+        '(objects created in the other mode). Plus: nested / recursive / raising decorator forms, exception inside the context, decorator form, nested contexts on the real API. '
         'Distinct by program index.')
 ASSUMPTIONS = ['uniform spacing of indexed frames in the mode is covered by C13 (index statistics are below this model)']
 PARTIAL = ''
@@ -128,8 +129,52 @@ def run(ctx):
                 return
             raise AssertionError('name accepted in the mode')
 
+    # decorator form, nested: a decorated function calling decorated functions (returning, raising, recursing)
+    @high_compatibility_mode_decorator
+    def inner_ok():
+        assert global_config.high_compat_mode
+
+    @high_compatibility_mode_decorator
+    def inner_raises():
+        1 / 0
+
+    @high_compatibility_mode_decorator
+    def outer_calls_inner():
+        inner_ok()
+        if not global_config.high_compat_mode:
+            raise AssertionError('return of an inner decorated call switched the mode off')
+        try:
+            inner_raises()
+        except ZeroDivisionError:
+            pass
+        if not global_config.high_compat_mode:
+            raise AssertionError('exception in an inner decorated call switched the mode off')
+
+    @high_compatibility_mode_decorator
+    def recursive(n=3):
+        if n:
+            recursive(n - 1)
+        if not global_config.high_compat_mode:
+            raise AssertionError('recursion switched the mode off')
+
+    def decorated_inside_with():
+        with high_compatibility_mode():
+            inner_ok()
+            if not global_config.high_compat_mode:
+                raise AssertionError('a decorated call inside the context switched the mode off')
+
+    def with_inside_decorated():
+        outer_calls_inner()
+        if global_config.high_compat_mode:
+            raise AssertionError('mode still on after the outermost decorated call returned')
+        with high_compatibility_mode():
+            pass
+        if global_config.high_compat_mode:
+            raise AssertionError('mode on after a context following decorated calls')
+
     for label, f in [('exception', by_exception), ('nested', nested), ('decorator', decorated), ('decorator-exception', decorated_raises),
-                     ('rejected-inside', rejected_inside)]:
+                     ('rejected-inside', rejected_inside), ('decorator-nested', outer_calls_inner), ('decorator-recursive', recursive),
+                     ('decorator-inside-with', decorated_inside_with), ('with-after-decorated', with_inside_decorated)]:
         try:
             probe(label, f)
         except AssertionError as e:
